@@ -289,11 +289,13 @@ def extract_playback(out, harness):
         cm = re.search(r"Check for `([a-z_]+)`: (.*)", body)
         kind = cm.group(1) if cm else "?"
         desc = cm.group(2).strip() if cm else ""
-        if kind == "cover":
-            continue
         vals = []
         for vm in re.finditer(r"^\s*vec!\[([0-9, ]*)\],?\s*$", body, re.M):
             txt = vm.group(1).strip()
             vals.append([int(x) for x in txt.split(",") if x.strip() != ""])
-        found.append((desc, vals))
-    return found
+        found.append((kind, desc, vals))
+    # Kani prints one test per distinct value vector: when the witness of a failed check coincides
+    # with that of a satisfied cover point it is labelled with the cover only. Failed checks first,
+    # cover-labelled vectors as further candidates (the native replay decides).
+    found.sort(key=lambda x: x[0] == "cover")
+    return [(d, v) for _k, d, v in found]
